@@ -15,7 +15,7 @@
         for (uint64_t& i = tinyIdx_; i * i <= high; i += 2) if (tinySieve_[i]) addSievingPrime(i);
 
   `src k` is the value of the k-th call of SievingPrimes::next() (a parameter: what it must deliver is a
-  hypothesis of the theorems, validated by the `sprimes` correspondence stream).  The state records every
+  hypothesis of the theorems, validated by the `sp` operations of the segment stream).  The state records every
   addSievingPrime call together with the segmentLow_ it was made at.  Mathlib-free, executable.
 -/
 import PsModel.Erat
